@@ -122,6 +122,9 @@ func ReadBPTreeRootIdxAt(fd *os.File, off int64) (*BPTreeRootIdx, error) {
 
 // Persistence writes BPTreeRootIdx entry to the File starting at byte offset off.
 func (bri *BPTreeRootIdx) Persistence(path string, offset int64, syncEnable bool) (number int, err error) {
+	if vf := verifOp("open", path, 0, 0, nil); vf != nil {
+		return 0, vf.Err
+	}
 	fd, err := os.OpenFile(path, os.O_CREATE|os.O_RDWR, 0644)
 	defer fd.Close()
 	if err != nil {
@@ -130,12 +133,22 @@ func (bri *BPTreeRootIdx) Persistence(path string, offset int64, syncEnable bool
 
 	data := bri.Encode()
 
+	if vf := verifOp("write", path, offset, int64(len(data)), data); vf != nil {
+		if vf.Partial > 0 {
+			_, _ = fd.WriteAt(data[:vf.Partial], offset)
+		}
+		return 0, vf.Err
+	}
+
 	n, err := fd.WriteAt(data, offset)
 	if err != nil {
 		return 0, err
 	}
 
 	if syncEnable {
+		if vf := verifOp("sync", path, 0, 0, nil); vf != nil {
+			return 0, vf.Err
+		}
 		err = fd.Sync()
 		if err != nil {
 			return 0, err
